@@ -349,9 +349,27 @@ Definition opt_failures (tbl : access_table) : list string :=
   flat_map (fun p : string * bool => if snd p then [] else
     [line "option" "" "" (fst p) "" "functional option applied outside a constructor" ""]) (t_opts tbl).
 
+(* an Unlock/RUnlock must release a lock taken in the SAME function context (lexically held at the call).  The
+   extractor's `release` of a lock it does not see as held is a no-op: a helper that unlocks on behalf of its caller
+   would leave the caller's later sites recorded as still under the lock.  Such a table is rejected here (no
+   exception list applies: this is about the soundness of the table itself, audit M11). *)
+Definition is_unlock (s : site) : bool :=
+  match s_kind s with
+  | Use => String.eqb (s_note s) "Unlock" || String.eqb (s_note s) "RUnlock"
+  | _ => false
+  end.
+
+Definition unlock_failures (tbl : access_table) : list string :=
+  flat_map (fun s =>
+    if is_unlock s && negb (holds_any (s_lex s) (s_struct s +++ "." +++ s_field s))
+    then [line "unlock" (s_struct s) (s_field s) (s_func s) (kind_name (s_kind s))
+               "Unlock of a lock that is not lexically held in this function: the lock sets recorded for its callers cannot be trusted"
+               (s_dbg s)]
+    else []) (t_sites tbl).
+
 Definition failures (pol : policy) (exc : list fkey) (tbl : access_table) : list string :=
   (field_failures pol exc tbl ++ site_failures pol exc tbl ++ pair_failures pol exc tbl ++
-   entry_failures tbl ++ opt_failures tbl)%list.
+   entry_failures tbl ++ opt_failures tbl ++ unlock_failures tbl)%list.
 
 Definition table_ok (pol : policy) (exc : list fkey) (tbl : access_table) : bool :=
   is_nil (failures pol exc tbl).
